@@ -177,6 +177,8 @@ pub struct Req {
     pub helper: String,
     pub binds: String,
     pub keys: Vec<Vec<u8>>,
+    /// target `ed07s` only: `set_max_len(n)` after the history has been filled
+    pub trim: Option<usize>,
 }
 
 pub fn unhex(s: &str) -> Option<Vec<u8>> {
@@ -214,6 +216,7 @@ pub fn parse(f: &[&str]) -> Option<Req> {
         helper: f[6].to_string(),
         binds: f[7].to_string(),
         keys: keys?,
+        trim: None,
     })
 }
 
@@ -299,8 +302,67 @@ pub fn outcome_of(r: &std::thread::Result<rustyline::Result<String>>) -> String 
     }
 }
 
-/// Runs one read on a fresh pseudo-terminal.
+fn mk_default_history(cfg: Config, hist: &[String], _trim: Option<usize>) -> DefaultHistory {
+    let mut history = DefaultHistory::with_config(cfg);
+    for h in hist {
+        let _ = history.add(h);
+    }
+    history
+}
+
+fn list_default_history(h: &DefaultHistory) -> Vec<String> {
+    h.iter().cloned().collect()
+}
+
+/// Runs one read on a fresh pseudo-terminal (default history back end).
 pub fn run(req: &Req, prompt: &str, rows: u16) -> Option<RunResult> {
+    run_with::<DefaultHistory>(req, prompt, rows, mk_default_history, list_default_history)
+}
+
+/// The same over the SQLite back end: an in-memory database (`SQLiteHistory::with_config` opens
+/// `:memory:`) filled through `add` in request order, then trimmed with `set_max_len` if asked.
+/// The history configuration is the crate's default (duplicates replaced through the unique
+/// index, `ignore_space` off, `max_history_size` 100).
+#[cfg(feature = "sqlite")]
+pub fn run_sqlite(req: &Req, prompt: &str, rows: u16) -> Option<RunResult> {
+    use rustyline::sqlite_history::SQLiteHistory;
+    fn mk(_cfg: Config, hist: &[String], trim: Option<usize>) -> SQLiteHistory {
+        // the back end gets the crate's DEFAULT history configuration (the editor's own
+        // configuration turns duplicate handling off for the default back end)
+        let mut history = SQLiteHistory::with_config(Config::default()).unwrap();
+        for h in hist {
+            let _ = history.add(h);
+        }
+        if let Some(n) = trim {
+            let _ = history.set_max_len(n);
+        }
+        history
+    }
+    // the stored entries in row order: every answer of get(i, Forward) walking up from 0
+    fn list(h: &SQLiteHistory) -> Vec<String> {
+        let mut out = vec![];
+        let mut i = 0;
+        while i < h.len() {
+            match h.get(i, rustyline::history::SearchDirection::Forward) {
+                Ok(Some(r)) => {
+                    out.push(r.entry.to_string());
+                    i = r.idx + 1;
+                }
+                _ => break,
+            }
+        }
+        out
+    }
+    run_with::<SQLiteHistory>(req, prompt, rows, mk, list)
+}
+
+fn run_with<I: History + 'static>(
+    req: &Req,
+    prompt: &str,
+    rows: u16,
+    mk_history: fn(Config, &[String], Option<usize>) -> I,
+    list_history: fn(&I) -> Vec<String>,
+) -> Option<RunResult> {
     let mut pty = Pty::open(req.cols, rows);
     if req.flags.contains('r') {
         pty.set_raw_initial();
@@ -319,6 +381,7 @@ pub fn run(req: &Req, prompt: &str, rows: u16) -> Option<RunResult> {
     let vi = req.vi;
     let flags = req.flags.clone();
     let hist = req.history.clone();
+    let trim = req.trim;
     let (left, right) = (req.left.clone(), req.right.clone());
     let prompt = prompt.to_string();
     let with_printer = req.flags.contains('p');
@@ -332,11 +395,10 @@ pub fn run(req: &Req, prompt: &str, rows: u16) -> Option<RunResult> {
             .history_ignore_dups(false)
             .unwrap()
             .build();
-        let mut history = DefaultHistory::with_config(cfg);
-        for h in &hist {
-            let _ = history.add(h);
-        }
-        let mut ed: Editor<ScriptHelper, DefaultHistory> = Editor::with_history(cfg, history).unwrap();
+        // (the configuration of the history back end proper is the crate's default: the SQLite
+        // back end then replaces duplicates; the default back end is told to keep them)
+        let history = mk_history(cfg, &hist, trim);
+        let mut ed: Editor<ScriptHelper, I> = Editor::with_history(cfg, history).unwrap();
         ed.set_helper(helper);
         ed.bind_sequence(Event::Any, EventHandler::Conditional(Box::new(Recorder { obs: obs2, sync: sync2 })));
         for (seq, cmd) in binds {
@@ -351,7 +413,7 @@ pub fn run(req: &Req, prompt: &str, rows: u16) -> Option<RunResult> {
                 ed.readline_with_initial(&prompt, (&left, &right))
             }
         }));
-        let hist_after: Vec<String> = ed.history().iter().cloned().collect();
+        let hist_after: Vec<String> = list_history(ed.history());
         let _ = res_tx.send((outcome_of(&r), hist_after));
     });
     let tid = tid_rx.recv_timeout(Duration::from_secs(5)).ok()?;
@@ -529,9 +591,36 @@ fn parse_binds(spec: &str) -> Option<Vec<(Vec<KeyEvent>, Cmd)>> {
 
 // ------------------------------------------------------------------------------------ target
 
+/// Target `ed07s` (feature `sqlite` only): request and observation as `ed07`, except that the
+/// history field is `[<n>!]<texts>`: the texts are handed to `SQLiteHistory::add` in order
+/// (duplicates of older entries delete the older row and leave a hole in the row ids, consecutive
+/// duplicates replace the newest row), then `set_max_len(n)` trims to the newest `n` rows when the
+/// prefix is present (holes at the front; `n = 0` empties the table while `len()` stays > 0).
+/// `H=` in the observation lists the stored entries in row order after the read.
+#[cfg(feature = "sqlite")]
+pub fn exec_sqlite(f: &[&str]) -> Option<String> {
+    if f.len() < 8 {
+        return None;
+    }
+    let (trim, texts) = match f[3].split_once('!') {
+        Some((n, t)) => (Some(n.parse::<usize>().ok()?), t),
+        None => (None, f[3]),
+    };
+    let mut g: Vec<&str> = f.to_vec();
+    g[3] = texts;
+    let mut req = parse(&g)?;
+    req.trim = trim;
+    let r = run_sqlite(&req, "> ", 60)?;
+    Some(show_result(&r))
+}
+
 pub fn exec(f: &[&str]) -> Option<String> {
     let req = parse(f)?;
     let r = run(&req, "> ", 60)?;
+    Some(show_result(&r))
+}
+
+fn show_result(r: &RunResult) -> String {
     let mut o = r.callbacks.join(" ");
     if !o.is_empty() {
         o.push(' ');
@@ -544,7 +633,7 @@ pub fn exec(f: &[&str]) -> Option<String> {
         r.paste_state,
         enc_texts(&r.validator_calls)
     ));
-    Some(o)
+    o
 }
 
 pub fn hex(b: &[u8]) -> String {
